@@ -280,7 +280,7 @@ fn oracle_all() {
     let full = std::env::var("ORACLE_FULL").map(|v| v == "1").unwrap_or(false);
     let mut projects: Vec<Vec<(u32, String)>> = Vec::new();
     // ---- family 1 (C05/C06): naming relations
-    let import_sets: [&[&str]; 9] = [&[], &["a.Foo"], &["b.Foo"], &["a.Foo", "b.Foo"], &["a.b.XFoo"], &["c.Missing"], &["android.os.IBinder"], &["a.Foo", "a.Foo", "a.Bar"], &["a.Bar", "c.Missing", "b.Foo"]];
+    let import_sets: [&[&str]; 10] = [&[], &["a.Foo"], &["b.Foo"], &["a.Foo", "b.Foo"], &["a.b.XFoo"], &["c.Missing"], &["android.os.IBinder"], &["a.Foo", "a.Foo", "a.Bar"], &["a.Bar", "c.Missing", "b.Foo"], &["x.IBinder", "y.ParcelFileDescriptor"]];
     let fwds: [&[&str]; 4] = [&[], &["Foo"], &["x.Q", "Q"], &["Baz", "Baz"]];
     let names = ["Foo", "a.Foo", "b.Foo", "XFoo", "Bar", "Q", "Baz", "IBinder", "android.os.IBinder", "ParcelFileDescriptor", "android.os.ParcelFileDescriptor", "Missing", "Nope"];
     for (ii, imps) in import_sets.iter().enumerate() { for (fi, fw) in fwds.iter().enumerate() { for (ni, name) in names.iter().enumerate() {
